@@ -150,6 +150,8 @@ class Path:
         p.heap = self.heap.clone()
         p.trace = list(self.trace)
         p.catch = list(self.catch)
+        if hasattr(self, "noraise"):
+            p.noraise = set(self.noraise)
         return p
 
     def assume(self, c):
@@ -1287,6 +1289,10 @@ class Engine:
             raise EngineError("match on a non-regex")
         return SMatch(rx.t, self.to_str(path, self.ev(path, e.args[0])))
 
+    def m_SMatch_start(self, path, m, e):
+        g = e.args[0].value if e.args and isinstance(e.args[0], ast.Constant) else 0
+        return SInt(self.c.regex_start(m.rx, g, m.s))
+
     def m_SMatch_group(self, path, m, e):
         g = e.args[0].value if e.args and isinstance(e.args[0], ast.Constant) else 0
         return SStr(self.c.regex_group(m.rx, g, m.s))
@@ -1415,6 +1421,22 @@ class Engine:
             if m is None:
                 raise EngineError(f"statement {type(st).__name__} not supported (line {st.lineno})")
             return m(st, path)
+        except _Raise as rz:
+            outs = []
+            if self.feasible(path, z3.Not(rz.cond)):
+                bad = path.clone()
+                bad.assume(z3.Not(rz.cond))
+                outs.append(Outcome("raise", bad, rz.exc))
+            if self.feasible(path, rz.cond):
+                ok = path.clone()
+                ok.assume(rz.cond)
+                ok.noraise = getattr(ok, "noraise", set()) | {rz.exc}
+                res = self.exec_stmt(st, ok)
+                for o in res:
+                    if hasattr(o.path, "noraise"):
+                        o.path.noraise = set(o.path.noraise) - {rz.exc}
+                outs.extend(res)
+            return outs
         except _Fork as fk:
             # an implicit exception inside a handler context: fork on its condition, re-execute the statement on the
             # 'no exception' side with the condition assumed
@@ -1739,10 +1761,21 @@ class Engine:
         if spec.unfold:
             for ax in spec.unfold(v):
                 head.assume(ax)
-        # 4. guard
+        # 4. guard (the variant is measured at the loop head, before the test is evaluated: the test may have effects)
         outs = []
+        var0_head = spec.variant(V(self, head, xs)) if spec.variant else None
         if kind == "while":
-            g = z3.simplify(self.truth(head, self.ev(head, st.test)))
+            try:
+                g = z3.simplify(self.truth(head, self.ev(head, st.test)))
+            except _Raise as rz:
+                # the loop test itself may raise (e.g. next() on an exhausted stream): split the head state
+                bad = head.clone()
+                bad.assume(z3.Not(rz.cond))
+                if self.feasible(head, z3.Not(rz.cond)):
+                    outs.append(Outcome("raise", bad, rz.exc))
+                head.assume(rz.cond)
+                head.noraise = getattr(head, "noraise", set()) | {rz.exc}
+                g = z3.simplify(self.truth(head, self.ev(head, st.test)))
         else:
             g = head.env[kname].t < it.length(head)
         # exit path
@@ -1759,7 +1792,7 @@ class Engine:
             body = head.clone()
             body.assume(g)
             body.trace.append(f"loop{ordn}:iter")
-            var0 = spec.variant(V(self, body, xs)) if spec.variant else None
+            var0 = var0_head
             if kind == "for":
                 self.assign(body, st.target, it.element(self, body, body.env[kname].t))
             for o in self.exec_block(st.body, body):
@@ -1911,6 +1944,13 @@ class Engine:
 
 
 class _Fork(Exception):
+    def __init__(self, cond, exc):
+        self.cond, self.exc = cond, exc
+
+
+class _Raise(Exception):
+    """raised by a call contract: the call raises `exc` unless `cond` holds"""
+
     def __init__(self, cond, exc):
         self.cond, self.exc = cond, exc
 
